@@ -232,7 +232,7 @@ static int yearFromTime(double t)
 	static const int d100y = d4y * 25 - 1;  // 100 year block (except multiples of 400)
 	static const int d400y = 4 * d100y + 1; // 400 year block (one more leap for the first year in the block)
 
-	int d = (int)floor(t * (1 / 86400.0)) + d400y * 4 + d100y + 1 + d100y * 2 + d4y - 1 + 16 * d4y + 2 * 365 + 1;
+	int d = (int)floor(t / 86400.0) + d400y * 4 + d100y + 1 + d100y * 2 + d4y - 1 + 16 * d4y + 2 * 365 + 1;
 	//(1970 = 4 * 400 + 3 * 100 + 17 * 4 + 2)
 	if (d > 695421 && d < 766645) // 1904 - 2099 : all d4y blocks
 	{
